@@ -10,16 +10,19 @@ theorem getD_of_map_range {f : Nat → Nat} {t : List Nat} {n : Nat} (h : (List.
   subst h
   simp [List.getD_eq_getElem?_getD, hi]
 
-theorem idx_fields (d : Nat) (hd : d < 256) (k c : Bool) :
-    (d + 256 * b2n k + 512 * b2n c) % 256 = d ∧ ibit (d + 256 * b2n k + 512 * b2n c) 8 = k ∧
-    ibit (d + 256 * b2n k + 512 * b2n c) 9 = c ∧ d + 256 * b2n k + 512 * b2n c < 1024 := by
+theorem idx_fields (m d : Nat) (hd : d < 256) (k c : Bool) :
+    (1024 * m + (d + 256 * b2n k + 512 * b2n c)) / 1024 = m ∧
+    (1024 * m + (d + 256 * b2n k + 512 * b2n c)) % 256 = d ∧
+    ibit (1024 * m + (d + 256 * b2n k + 512 * b2n c)) 8 = k ∧
+    ibit (1024 * m + (d + 256 * b2n k + 512 * b2n c)) 9 = c ∧ d + 256 * b2n k + 512 * b2n c < 1024 := by
   cases k <;> cases c <;> simp [ibit, b2n] <;> omega
 
 /-- The real `SingleEncoder(lsb_first)` netlist, on every input, computes `encode1` (in its bit order). -/
 theorem net_encoder (lsb : Bool) (d : Nat) (hd : d < 256) (k c : Bool) :
     (netEnc lsb).getD (d + 256 * b2n k + 512 * b2n c) 0 =
       fmt lsb (encode1 d k c).1 + 1024 * b2n (encode1 d k c).2 := by
-  obtain ⟨h1, h2, h3, h4⟩ := idx_fields d hd k c
+  obtain ⟨_, h1, h2, h3, h4⟩ := idx_fields 0 d hd k c
+  simp only [Nat.mul_zero, Nat.zero_add] at h1 h2 h3
   have : (netEnc lsb).getD (d + 256 * b2n k + 512 * b2n c) 0 = encEntry lsb (d + 256 * b2n k + 512 * b2n c) := by
     cases lsb
     · exact getD_of_map_range regen_encMsb _ h4
@@ -38,14 +41,7 @@ theorem net_decoder (lsb : Bool) (w : Nat) (hw : w < 1024) :
     incoming running disparity) computes what the model `encoder 2 false` computes. -/
 theorem net_chain2 (lane : Nat) (hl : lane < 2) (d : Nat) (hd : d < 256) (k c : Bool) :
     Netlist.chain2.getD (1024 * lane + (d + 256 * b2n k + 512 * b2n c)) 0 = chainProbe 2 lane d k c := by
-  obtain ⟨h1, h2, h3, h4⟩ := idx_fields d hd k c
-  rw [getD_of_map_range regen_chain2 _ (by omega), chain2Entry]
-  have e1 : (1024 * lane + (d + 256 * b2n k + 512 * b2n c)) / 1024 = lane := by omega
-  have e2 : (1024 * lane + (d + 256 * b2n k + 512 * b2n c)) % 256 = d := by omega
-  have e3 : ibit (1024 * lane + (d + 256 * b2n k + 512 * b2n c)) 8 = k := by
-    rw [← h2]; simp only [ibit]; congr 1; omega
-  have e4 : ibit (1024 * lane + (d + 256 * b2n k + 512 * b2n c)) 9 = c := by
-    rw [← h3]; simp only [ibit]; congr 1; omega
-  rw [e1, e2, e3, e4]
+  obtain ⟨e1, e2, e3, e4, h4⟩ := idx_fields lane d hd k c
+  rw [getD_of_map_range regen_chain2 _ (by omega), chain2Entry, e1, e2, e3, e4]
 
 end Litex.Code8b10b
